@@ -122,6 +122,16 @@ func genC09(seed int64, tier string) *Scenario {
 		use.WriteString("---@type Cls0\nlocal c0 = nil\nprint(c0.fa0)\n")
 	}
 	if r.Intn(3) == 0 {
+		// a global table defined in one file and extended from others; two of them add a member of
+		// the same name: which one the table ends up with must not depend on map or arrival order
+		sc.Files = append(sc.Files, File{Path: "d0/tbl.lua", Data: Bytes("SharedTbl = {}\nSharedTbl.own = 1\n")})
+		for k := 0; k < 2+r.Intn(3); k++ {
+			sc.Files = append(sc.Files, File{Path: fmt.Sprintf("d%d/ext%d.lua", k%ndirs, k), Data: Bytes(fmt.Sprintf("function SharedTbl:same(a%s)\n  return a\nend\nfunction SharedTbl:only%d() end\nSharedTbl.field = %d\n", strings.Repeat(", b", k), k, k))})
+		}
+		use.WriteString("print(SharedTbl.own, SharedTbl.field)\nSharedTbl:same(1)\nSharedTbl:only0()\n")
+		sc.Knobs["sharedTbl"] = true
+	}
+	if r.Intn(3) == 0 {
 		// a native module required from several files of the same first-pass batch: the lookups of
 		// "native.so" go through the shared file-exists cache from several workers at once
 		sc.Files = append(sc.Files, File{Path: "native.so", Data: Bytes("\x7fELF")}, File{Path: "d0/deep/other.so", Data: Bytes("\x7fELF")})
